@@ -97,7 +97,8 @@ def main():
         dst = os.path.join(V, 'seeded', name)
         os.makedirs(dst, exist_ok=True)
         for f in os.listdir(src):
-            if os.path.isfile(os.path.join(src, f)) and os.path.getsize(os.path.join(src, f)) < 200000:
+            if os.path.abspath(src) != os.path.abspath(dst) and os.path.isfile(os.path.join(src, f)) and \
+                    os.path.getsize(os.path.join(src, f)) < 200000:
                 shutil.copy(os.path.join(src, f), dst)
         json.dump(meta, open(os.path.join(dst, 'meta.json'), 'w'), indent=1)
         caught = [c for c in checks if meta['checks'][c]['exit'] == 1]
